@@ -73,7 +73,8 @@ def heading_speed(F, info):
         sp = SQRT(z3.simplify(vx * vx + vy * vy))
         hd = ATAN2(z3.simplify(vy), z3.simplify(vx))
         if core.CURRENT is not None:
-            core.CURRENT.solver.add(sp >= 0, sp * sp == vx * vx + vy * vy, hd > -PI, hd <= PI)
+            core.CURRENT.solver.add(sp >= 0, hd > -PI, hd <= PI)
+            core.CURRENT.lazy_axioms.append(sp * sp == vx * vx + vy * vy)
         return hd, sp
     return R(info["heading"]), R(info["speed"])
 
